@@ -96,6 +96,9 @@ func genCfg() *hist.GenCfg {
 		WideIdxs: []int{8, 10, 9, 16},
 		Dotted:   5,
 		Sources:  2,
+		// the Go representation of the trees: structs (by value and pointer), typed slices / arrays / maps of
+		// structs, nested, in the initial tree, in SetChild trees and in merged values
+		Structs: 3,
 	}
 }
 
@@ -460,7 +463,7 @@ func runCase(c Case, r *runlog.R) error {
 	if err := check("initial state"); err != nil {
 		return fmt.Errorf("initial state: %v%s", err, trace(c, -1))
 	}
-	nt := false
+	nt, structLists := false, false
 	for i, op := range c.Ops {
 		before := hist.Positions(st.Root.M)
 		lens := listLens(st.Root.M)
@@ -485,6 +488,18 @@ func runCase(c Case, r *runlog.R) error {
 			r.Class("op " + op.Kind)
 			r.ClassIf(op.Kind == hist.Merge, "merge "+op.Policy.String())
 			r.ClassIf(op.Kind == hist.Merge && info.Source != "", "merge source: "+info.Source)
+			reprs := make([]string, 0, len(info.Reprs))
+			for k := range info.Reprs {
+				reprs = append(reprs, k)
+			}
+			sort.Strings(reprs)
+			for _, k := range reprs {
+				r.Class(op.Kind + " representation: " + k)
+			}
+			if op.From == hist.FromStruct && (info.Reprs["list with struct elements"] > 0 || info.Reprs["[]T of structs"] > 0 || info.Reprs["[N]T of structs"] > 0 || info.Reprs["[]*T of structs"] > 0) {
+				r.Class(op.Kind + " brings in a list whose elements are Go structs")
+				structLists = true
+			}
 		}
 		if info.Skipped == "" && !info.Rejected {
 			odd := op.Kind != hist.Merge && nonCanonical(op.Name, c.PathSep)
@@ -512,6 +527,8 @@ func runCase(c Case, r *runlog.R) error {
 		r.Class("initial tree (NewFrom) with dotted keys")
 		r.ClassIf(nc, "initial tree (NewFrom) whose dotted keys have index segments in another integer syntax")
 	}
+	r.ClassIf(c.InitRepr, "initial tree (NewFrom) in Go struct representations")
+	r.ClassIf(structLists, "history brings in a list whose elements are Go structs (merge or SetChild)")
 	r.Class("paths asked with separator " + qsep)
 	r.ClassIf(c.PathSep, "with PathSep")
 	r.ClassIf(!c.PathSep, "without PathSep")
@@ -521,7 +538,7 @@ func runCase(c Case, r *runlog.R) error {
 
 var subHist = runlog.Register(&runlog.Sub[Case]{
 	Name: "positional-histories",
-	Rule: "histories of 3-20 (thorough: 3-36) operations Set*, SetChild(fresh config), Remove, Merge under all five policies (half of the merged trees put a list where the history keeps its lists; 2 in 10 merges take their value from mixed Go representations, a fresh *Config kept in the case, the *Config of the root / a child handle / a stand-alone config, or data embedding one), Child, and re-attachment of a pooled child with SetChild (after removing it from its old place), on the root and on pooled child handles; addresses from overlapping dictionary-ish and list-ish dotted names plus explicit indices 0..3 (1 in 10: 8, 9, 10, 16); the spelling of positions is varied: 3 in 10 index segments of a dotted name are written in another integer syntax of strconv base 0 (+1, 02, 0o2, 0x1, 0b1, 0_1, -0, 1_0 ...), an explicit index is sometimes written as the last segment, and with PathSep half of the trees that are merged, attached with SetChild or given to NewFrom (initial tree) spell part of their structure in dotted keys (\"l.02.x\": 1 for l: [nil, nil, {x: 1}]; all children of a container inlined or only some of them next to the plain key; nil padding left to the library; index segments in every integer syntax); operations that would give a node both named keys and list elements are skipped, no references. After every step: every node of the model is navigated to Child by Child; its Path(sep) must be the navigated path - names as written, indices as plain decimal numbers whatever spelling wrote them - and its Parent() pointer-identical to the handle it was reached from (root: empty path, nil parent); PathOf(field, sep) is that path extended by the field; sep is \".\" or (every fourth history) \"/\" for the whole history, after the last step both are asked; FlattenedKeys equals the sorted model paths of the non-nil primitives (decimal indices); CompareConfigs(state before the step, state) partitions exactly and CompareConfigs(state, equal config built from scratch out of plain nested maps and lists) reports no change. Non-trivial: some step moved an existing non-nil setting to another path (removal before the end of a list, prepend merge, re-attachment) or an append/prepend merge extended a non-empty list; all positional queries follow it. Distinct: hash of the whole case. While finding D14 is open the generator replaces re-attachments by SetChild of fresh configs (counted in excluded_known).",
+	Rule: "histories of 3-20 (thorough: 3-36) operations Set*, SetChild(fresh config), Remove, Merge under all five policies (half of the merged trees put a list where the history keeps its lists; 2 in 10 merges take their value from mixed Go representations, a fresh *Config kept in the case, the *Config of the root / a child handle / a stand-alone config, or data embedding one; 3 in 10 of the other merges, of the SetChild trees and of the initial trees (NewFrom) are handed over in Go STRUCT representations: structs by value and by pointer with interface{} or concretely typed fields, []T / [N]T / []*T of structs, map[string]T / map[string]*T of structs, lists of mixed struct elements, nested in each other; half of those trees are a list of 1-3 objects with the same keys below a name where the history keeps its lists (existing key), below any key of the alphabet (mostly new) or one level deeper), Child, and re-attachment of a pooled child with SetChild (after removing it from its old place), on the root and on pooled child handles; addresses from overlapping dictionary-ish and list-ish dotted names plus explicit indices 0..3 (1 in 10: 8, 9, 10, 16); the spelling of positions is varied: 3 in 10 index segments of a dotted name are written in another integer syntax of strconv base 0 (+1, 02, 0o2, 0x1, 0b1, 0_1, -0, 1_0 ...), an explicit index is sometimes written as the last segment, and with PathSep half of the trees that are merged, attached with SetChild or given to NewFrom (initial tree) spell part of their structure in dotted keys (\"l.02.x\": 1 for l: [nil, nil, {x: 1}]; all children of a container inlined or only some of them next to the plain key; nil padding left to the library; index segments in every integer syntax); operations that would give a node both named keys and list elements are skipped, no references. After every step: every node of the model is navigated to Child by Child; its Path(sep) must be the navigated path - names as written, indices as plain decimal numbers whatever spelling wrote them - and its Parent() pointer-identical to the handle it was reached from (root: empty path, nil parent); PathOf(field, sep) is that path extended by the field; sep is \".\" or (every fourth history) \"/\" for the whole history, after the last step both are asked; FlattenedKeys equals the sorted model paths of the non-nil primitives (decimal indices); CompareConfigs(state before the step, state) partitions exactly and CompareConfigs(state, equal config built from scratch out of plain nested maps and lists) reports no change. Non-trivial: some step moved an existing non-nil setting to another path (removal before the end of a list, prepend merge, re-attachment) or an append/prepend merge extended a non-empty list; all positional queries follow it. Distinct: hash of the whole case. While finding D14 is open the generator replaces re-attachments by SetChild of fresh configs (counted in excluded_known).",
 	Gen:  genCase,
 	Run:  runCase,
 })
@@ -539,6 +556,9 @@ type PairCase struct {
 	// indices in any integer syntax (only with PathSep)
 	A2 *gen.Tree `json:"a2,omitempty"`
 	B2 *gen.Tree `json:"b2,omitempty"`
+	// Structs: A and B are also built from their Go struct representations (hist.StructRepr, chosen by the R
+	// fields of their containers)
+	Structs bool `json:"structs,omitempty"`
 }
 
 func pairCfg() *gen.TreeCfg {
@@ -604,6 +624,11 @@ func genPair(t *rapid.T) PairCase {
 	if pc.PathSep {
 		pc.A2 = hist.FoldKeys(t, pc.A, 5, "a2")
 		pc.B2 = hist.FoldKeys(t, pc.B, 5, "b2")
+	}
+	if rapid.IntRange(0, 2).Draw(t, "structs") == 0 {
+		pc.Structs = true
+		hist.AssignStructReprs(t, pc.A)
+		hist.AssignStructReprs(t, pc.B)
 	}
 	return pc
 }
@@ -706,6 +731,45 @@ func runPair(pc PairCase, r *runlog.R) error {
 		r.ClassIf(dka || dkb, "a configuration spelled with dotted keys")
 		r.ClassIf(nca || ncb, "dotted keys with index segments in another integer syntax")
 	}
+	if pc.Structs {
+		// the same two configurations handed to NewFrom as Go structs, typed slices / arrays / maps of structs
+		mkS := func(t *gen.Tree, used map[string]int) (*ucfg.Config, error) {
+			var c *ucfg.Config
+			err := uc.Safe("NewFrom", func() error {
+				v, e := hist.StructRepr(t, opts, used)
+				if e != nil {
+					return e
+				}
+				c, e = ucfg.NewFrom(v, opts...)
+				return e
+			})
+			return c, err
+		}
+		used := map[string]int{}
+		a3, err := mkS(pc.A, used)
+		if err != nil {
+			return fmt.Errorf("NewFrom(A in struct representations): %v", err)
+		}
+		b3, err := mkS(pc.B, used)
+		if err != nil {
+			return fmt.Errorf("NewFrom(B in struct representations): %v", err)
+		}
+		if err := checkFlattened(a3, la, opts); err != nil {
+			return fmt.Errorf("A3 (A in Go struct representations): %v", err)
+		}
+		if err := checkFlattened(b3, lb, opts); err != nil {
+			return fmt.Errorf("B3 (B in Go struct representations): %v", err)
+		}
+		if err := checkDiff(a, a3, la, la, opts); err != nil {
+			return fmt.Errorf("A -> A3 (the same settings in Go struct representations): %v", err)
+		}
+		if err := checkDiff(a3, b3, la, lb, opts); err != nil {
+			return fmt.Errorf("A3 -> B3: %v", err)
+		}
+		r.Class("a configuration built from Go struct representations")
+		r.ClassIf(used["list with struct elements"]+used["[]T of structs"]+used["[N]T of structs"]+used["[]*T of structs"] > 0, "a configuration with a list whose elements are Go structs")
+		r.ClassIf(used["map of structs"] > 0, "a configuration with a map of Go structs")
+	}
 	sa, sb := set(la), set(lb)
 	common, onlyA, onlyB := 0, 0, 0
 	for k := range sa {
@@ -731,7 +795,7 @@ func runPair(pc PairCase, r *runlog.R) error {
 
 var subPairs = runlog.Register(&runlog.Sub[PairCase]{
 	Name: "diff-pairs",
-	Rule: "pairs (A, B) of random trees without references, every node a dictionary or a list, B an edited copy of A (children dropped, replaced, added; 3 of 4 cases) or independent: FlattenedKeys of each equals the model's non-nil primitive paths; CompareConfigs(A,B) and (B,A) put every path in exactly the right one of Keep/Add/Remove; CompareConfigs(A, equal copy) and (A, A) report no change. With PathSep each of A and B is also written a second way (A2, B2: part of the structure spelled in dotted keys, list indices in any integer syntax, nil padding left out): FlattenedKeys(A2) equals the same plain decimal paths, CompareConfigs(A, A2) reports no change, CompareConfigs(A2, B2) and (B2, A) partition like (A, B) and (B, A). Non-trivial: the two key sets share a path and differ in one. Distinct: hash of the case.",
+	Rule: "pairs (A, B) of random trees without references, every node a dictionary or a list, B an edited copy of A (children dropped, replaced, added; 3 of 4 cases) or independent: FlattenedKeys of each equals the model's non-nil primitive paths; CompareConfigs(A,B) and (B,A) put every path in exactly the right one of Keep/Add/Remove; CompareConfigs(A, equal copy) and (A, A) report no change. With PathSep each of A and B is also written a second way (A2, B2: part of the structure spelled in dotted keys, list indices in any integer syntax, nil padding left out): FlattenedKeys(A2) equals the same plain decimal paths, CompareConfigs(A, A2) reports no change, CompareConfigs(A2, B2) and (B2, A) partition like (A, B) and (B, A). In 1 of 3 cases A and B are also built a third way (A3, B3: NewFrom of Go struct representations: structs by value and pointer with interface{} or concretely typed fields, []T / [N]T / []*T and map[string]T / map[string]*T of structs, nested): FlattenedKeys(A3) equals the same paths, CompareConfigs(A, A3) reports no change, CompareConfigs(A3, B3) partitions like (A, B). Non-trivial: the two key sets share a path and differ in one. Distinct: hash of the case.",
 	Gen:  genPair,
 	Run:  runPair,
 })
